@@ -123,6 +123,33 @@ func init() {
 		finish(x, n, ss, "")
 	})
 
+	// S-cached-next-height: the follower already holds the peers' complete traffic of height 2 in its future cache when
+	// the last COMMITs of height 1 arrive: committing height 1 starts height 2, whose cached messages decide it inside
+	// the same step (re-entrant drain). Callback order and heights must stay strictly increasing (C13), both commits happen.
+	registerBoth("S-cached-next-height", []string{"C13"}, 1, 3, 4, func(x *X, cancel bool) {
+		n := newNode(x, 1)
+		n.Boot()
+		feed(n, n.peerMsgs(2, "B2")) // all cached: the node is at height 1
+		msgs := n.peerMsgs(1, "B1")
+		feed(n, msgs[:4])
+		s := x.S
+		s.Thread("feeder", func() {
+			for _, m := range msgs[4:] {
+				n.M.HandleConsensusMessage(n.Ctx, m)
+			}
+		})
+		var ss []sample
+		observer(n, &ss, 2)
+		addCancel(n, cancel)
+		if !s.Run(20000) {
+			x.Bad("C16", "livelock", "step horizon reached")
+		}
+		if !cancel && s.Fires == 0 && len(n.Commits) != 2 {
+			x.Bad("C05", "no-commit", "all messages of heights 1 and 2 delivered, no timeout, but commits=%v", n.Commits)
+		}
+		finish(x, n, ss, "")
+	})
+
 	// S-commit-vs-sync: the committing COMMIT races with UpdateState calls of equal, older and newer heights.
 	registerBoth("S-commit-vs-sync", []string{"C13", "C14"}, 0, 3, 4, func(x *X, cancel bool) {
 		n := newNode(x, 1)
@@ -409,30 +436,43 @@ func init() {
 
 	// S-committee-unavailable: RequestOrderedCommittee of height 1 keeps failing while its context lives (the
 	// polling loop of the term constructor). A sync to a higher height, or shutdown, must get the worker out.
-	registerBoth("S-committee-unavailable", []string{"C14", "C15"}, 0, 3, 4, func(x *X, cancel bool) {
-		n := newNode(x, 1)
-		n.BlockCommittee[1] = true
-		n.Boot()
-		s := x.S
-		synced := false
-		s.Thread("sync", func() {
-			n.M.UpdateState(n.Ctx, kit.NewBlock(3, "B3"), n.proofFor(3, "B3"))
-			synced = true
+	// "-same": the sync delivers exactly the block of the height being decided (the lowest sync that must still get the worker out).
+	for _, syncTo := range []uint64{3, 1} {
+		syncTo := syncTo
+		cuName := "S-committee-unavailable"
+		if syncTo == 1 {
+			cuName += "-same"
+		}
+		registerBoth(cuName, []string{"C14", "C15"}, 0, 3, 4, func(x *X, cancel bool) {
+			n := newNode(x, 1)
+			n.BlockCommittee[1] = true
+			n.Boot()
+			s := x.S
+			synced := false
+			s.Thread("sync", func() {
+				n.M.UpdateState(n.Ctx, kit.NewBlock(syncTo, fmt.Sprintf("B%d", syncTo)), n.proofFor(syncTo, fmt.Sprintf("B%d", syncTo)))
+				synced = true
+			})
+			addCancel(n, cancel)
+			if !s.Run(6000) {
+				x.Bad("C16", "livelock", "step horizon reached: the worker spins (events %v)", tail(n.Events, 6))
+			}
+			if !cancel {
+				if !synced {
+					x.Bad("C14", "updatestate-blocked-or-failed", "UpdateState did not return; blocked=%v", s.Blocked())
+				}
+				if h := uint64(n.M.State().Height()); h != syncTo+1 {
+					x.Bad("C14", "newest-sync-not-effective", "UpdateState(block %d) returned nil but the node ends at height %d (events %v)", syncTo, h, tail(n.Events, 8))
+				}
+				for _, c := range n.SpiCalls {
+					if !c.Returned {
+						x.Bad("C15", "spi-not-released", "%s(h%d) is still blocked although a sync to block %d was accepted", c.Kind, c.Height, syncTo)
+					}
+				}
+			}
+			finish(x, n, nil, "")
 		})
-		addCancel(n, cancel)
-		if !s.Run(6000) {
-			x.Bad("C16", "livelock", "step horizon reached: the worker spins (events %v)", tail(n.Events, 6))
-		}
-		if !cancel {
-			if !synced {
-				x.Bad("C14", "updatestate-blocked-or-failed", "UpdateState did not return; blocked=%v", s.Blocked())
-			}
-			if h := uint64(n.M.State().Height()); h != 4 {
-				x.Bad("C14", "newest-sync-not-effective", "UpdateState(block 3) returned nil but the node ends at height %d (events %v)", h, tail(n.Events, 8))
-			}
-		}
-		finish(x, n, nil, "")
-	})
+	}
 
 	// S-stale-events: the node leads (h1,v0) and sits in RequestNewBlockProposal; only STALE events arrive (a repeated
 	// genesis sync, messages of a past height). The context of the current position must stay live: the call
@@ -578,7 +618,7 @@ func init() {
 		n := newNode(x, 0)
 		hold := make(chan struct{})
 		n.HoldReq[2] = hold
-		n.Boot() // leader of (h1,v0): proposes Pn0.1.0
+		n.Boot()                          // leader of (h1,v0): proposes Pn0.1.0
 		feed(n, n.peerMsgs(1, "Pn0.1.0")) // commits height 1, becomes leader of (h2,v0), held in RequestNewBlockProposal(h2)
 		s := x.S
 		if len(n.Commits) != 1 || uint64(n.M.State().Height()) != 2 {
@@ -616,11 +656,17 @@ func init() {
 	// S-blocked-commit: the follower's commit callback of height 1 waits for its context (a consumer whose persistence
 	// honours cancellation). A sync to a higher height (or shutdown) must release it; the node must end above the
 	// synced block whatever the released callback reports (error / success), and never restart a round at or below it.
-	for _, nilOnCancel := range []bool{false, true} {
-		nilOnCancel := nilOnCancel
+	for _, variant := range []struct {
+		nilOnCancel bool
+		syncTo      uint64
+	}{{false, 3}, {true, 3}, {false, 1}, {true, 1}} {
+		nilOnCancel, syncTo := variant.nilOnCancel, variant.syncTo
 		name := "S-blocked-commit"
 		if nilOnCancel {
 			name = "S-blocked-commit-ok"
+		}
+		if syncTo == 1 { // the sync delivers exactly the block whose commit callback is in progress
+			name += "-same"
 		}
 		registerBoth(name, []string{"C15", "C14", "C13"}, 1, 3, 4, func(x *X, cancel bool) {
 			n := newNode(x, 1)
@@ -631,7 +677,7 @@ func init() {
 			s := x.S
 			synced := false
 			s.Thread("sync", func() {
-				n.M.UpdateState(n.Ctx, kit.NewBlock(3, "B3"), n.proofFor(3, "B3"))
+				n.M.UpdateState(n.Ctx, kit.NewBlock(syncTo, fmt.Sprintf("B%d", syncTo)), n.proofFor(syncTo, fmt.Sprintf("B%d", syncTo)))
 				synced = true
 			})
 			var ss []sample
@@ -646,11 +692,11 @@ func init() {
 				}
 				for _, c := range n.SpiCalls {
 					if !c.Returned {
-						x.Bad("C15", "spi-not-released", "%s(h%d) is still blocked although the node was told to leave that height (sync to block 3)", c.Kind, c.Height)
+						x.Bad("C15", "spi-not-released", "%s(h%d) is still blocked although the node was told to leave that height (sync to block %d)", c.Kind, c.Height, syncTo)
 					}
 				}
-				if h := uint64(n.M.State().Height()); h != 4 {
-					x.Bad("C14", "newest-sync-not-effective", "UpdateState(block 3) returned nil but the node ends at height %d (events %v)", h, tail(n.Events, 8))
+				if h := uint64(n.M.State().Height()); h != syncTo+1 {
+					x.Bad("C14", "newest-sync-not-effective", "UpdateState(block %d) returned nil but the node ends at height %d (events %v)", syncTo, h, tail(n.Events, 8))
 				}
 				checkSyncRounds(x, n)
 			}
